@@ -53,7 +53,7 @@ def _harness_copy(extra_replace=""):
     different replace directives never fight over one go.mod). Paths are stable per replace-set to keep the
     go build cache warm."""
     import hashlib
-    key = hashlib.sha1((extra_replace + "|" + REPO).encode()).hexdigest()[:12]
+    key = hashlib.sha1((extra_replace + "|" + REPO + "|" + HARNESS).encode()).hexdigest()[:12]      # (one copy per replace-set, repository and harness tree)
     base = os.environ.get("VERIF_SCRATCH", tempfile.gettempdir())
     dst = os.path.join(base, "verif-harness-" + key)
     r = subprocess.run(["rsync", "-a", "--delete", "--exclude", "go.mod", "--exclude", "go.sum", HARNESS + "/", dst + "/"],
